@@ -436,3 +436,5 @@ def run(ctx, rep):
         esc = [t for t in news if t["f"]["args"][:2] == ["RICE_MAX", "RICE_MAX"]]
         rep.check("C02.resid", "escape / constant partitions are announced with the all-ones parameter RICE_MAX", len(esc) == 2, loc_of(b), "%d of %d BitCount::new calls" % (len(esc), len(news)))
     rice_escape_rules(F, OkImplies(F, ctx.cg()), rep, "C02")
+    from rules import C16
+    C16.increment_last_rules(F, rep, "C02.num")
